@@ -245,7 +245,7 @@ PROPS = {
     'C01': dict(corr=[GS, RT, BD, DAG, E01, E01L, E01V]),
     'C02': dict(level='translation_validation', corr=[PLAN4, PLAN5, PLAN6, PLANR, RUN]),
     'C03': dict(corr=[FU]),
-    'C04': dict(corr=[GC, PLAN5, PLANR]),
+    'C04': dict(corr=[GC, PLAN5, PLANR, RUN]),
     'C05': dict(corr=[RB, RBQ, RBC, RBW, E05]),
     'C06': dict(corr=[RB, RBC, RBW, HB, HBF, E05]),
     'C07': dict(corr=[MG, DAG]),
